@@ -20,9 +20,10 @@ RULES = {
     'R8': 'what disable closes, enable opens again: _log_target_disable runs the target\'s close callback; for every close callback the library itself installs (file, syslog, blackbox) _log_target_enable calls a function of the same unit that knows that callback (installs it again, or tests for it before it re-opens) - otherwise the target is ENABLED, its filters select the call site and nothing is delivered',
     'R9': 'once per call also when the routing changes under a backlog: a queued record is routed when the logging thread writes it, so a change of a target\'s threaded switch, of the filters or tags of existing call sites, or a run of the custom filter function happens only with the queue written out and the thread kept out (= C16.R11) - otherwise a target that has written a line itself gets it again from the thread, or loses what was logged for it',
     'R10': 'stored filters are replayed in the order they were set (the last tag filter that selects a call site decides its tag, whether it is applied when it is set or replayed for a call site seen later or after a tag filter was cleared): _log_filter_store appends at the tail and every walk over the tag filter list goes forward (or both are the other way round)',
+    'R11': 'the bound of the delivery loops covers every slot: the scan that stores conf_active_max looks at every target slot up to the last one (QB_LOG_TARGET_MAX - 1), so that an enabled target in the last slot is delivered to',
     'R7': 'names are compared whole: the matcher makes no bounded copy of a filter alternative; the dynamic call-site lookup compares the function name wherever it compares the file name',
 }
-FLOORS = {'R1': 6, 'R2': 4, 'R3': 9, 'R4': 10, 'R5': 7, 'W1': 1, 'R6': 3, 'R7': 3, 'R8': 3, 'R9': 5, 'R10': 3}
+FLOORS = {'R1': 6, 'R2': 4, 'R3': 9, 'R4': 10, 'R5': 7, 'W1': 1, 'R6': 4, 'R7': 3, 'R8': 3, 'R9': 5, 'R10': 3, 'R11': 1}
 
 
 def run(ctx):
@@ -37,6 +38,7 @@ def run(ctx):
     from rules import c16
     c16.routing_changes(ctx, 'R9')
     r10(ctx)
+    r11(ctx)
     r_linezero(ctx)
     r_msgid(ctx)
     w1(ctx)
@@ -508,6 +510,12 @@ def r6(ctx):
                   'on %s the known call sites are cleared and every stored filter is applied again' % what,
                   'on %s the known call sites are changed by the arguments of the call itself: a call site that another stored filter still selects loses its %s, '
                   'a remove that matches no stored filter still deselects, and a removed regex filter clears nothing' % (what, 'target bit' if val == REMOVE else 'tag'))
+        if val == TAGCLR and replay:
+            own = all(any(n.get('k') == 'mem' and n.get('f') == 'new_value' and n.get('rec') == 'qb_log_filter' for n in walk(ev.args[1])) for ev in replay)
+            ctx.check('R6', 'tag-clear:each-filter-re-applied-with-its-own-tag', own, replay[0],
+                      'after a tag filter is cleared the remaining tag filters are re-applied with the tag each of them stores',
+                      'after a tag filter is cleared the remaining tag filters are re-applied with %s, the tag named in the clear call, not with their own: a call site already known gets the cleared filter\'s tag from the survivors, one first used afterwards gets the right one'
+                      % estr(replay[0].args[1]))
     tf = prog.fn('qb_log_target_free')
     clr = [ev for ev in list(tf.calls('qb_log_filter_ctl')) + list(tf.calls('qb_log_filter_ctl2')) + list(tf.calls(filter_core(prog).name)) if cval(unwrap(ev.args[1])) == prog.econst('QB_LOG_FILTER_CLEAR_ALL')]
     ok = bool(clr) and all(cval(unwrap(ev.args[3])) != 0 or unwrap(ev.args[3]).get('k') == 'str' for ev in clr)
@@ -639,3 +647,56 @@ def r10(ctx):
                   '%s walks the tag filter list in the order the filters were set' % g.name,
                   '%s walks the tag filter list by %s while _log_filter_store inserts with %s: the stored filters are replayed in the reverse of the order they were applied in when they were set - where two tag filters select one call site its tag depends on whether it was first used before or after they were set, and flips when an unrelated tag filter is cleared'
                   % (g.name, d, ins[0].callee))
+
+
+def r11(ctx):
+    prog = ctx.prog
+    TMAX = prog.econst('QB_LOG_TARGET_MAX')
+    n = 0
+    for f in prog.all_fns(files={'lib/log.c'}):
+        sts = [st for st in f.events('STORE') if unwrap(st.lhs).get('k') == 'var' and unwrap(st.lhs).get('sc') == 'g' and unwrap(st.lhs)['n'] == 'conf_active_max' and cval(unwrap(st.rhs)) is None]
+        if not sts:
+            continue
+        loops = f.natural_loops()
+        for st in sts:
+            inl = [(h, b) for (h, b) in loops.items() if st.blk in b]
+            if not inl:
+                # a block that leaves the loop with break is not part of the natural loop: the loop whose header dominates it and
+                # whose body branches to it
+                inl = [(h, b) for (h, b) in loops.items() if h in f.dom().get(st.blk, set()) and
+                       any(st.blk == t_ or st.blk in f._block_reach().get(t_, set()) for b_ in b for (t_, _l) in f.blocks[b_].succs if t_ not in b)]
+            if not inl:
+                continue
+            h, body = min(inl, key=lambda x: len(x[1]))
+            # the loop variable: the one the index of conf[] in the body is built from
+            ixs = [n_['i'] for b_ in body for ev in f.blocks[b_].events for t in ([ev.d.get('e'), ev.d.get('lhs'), ev.d.get('rhs')]) if isinstance(t, dict)
+                   for n_ in walk(t) if n_.get('k') == 'idx' and unwrap(n_['b']).get('k') == 'var' and unwrap(n_['b'])['n'] == 'conf']
+            ixs += [n_['i'] for b_ in body if f.blocks[b_].cond is not None for n_ in walk(f.blocks[b_].cond)
+                    if n_.get('k') == 'idx' and unwrap(n_['b']).get('k') == 'var' and unwrap(n_['b'])['n'] == 'conf']
+            if not ixs:
+                raise AnalysisBroken('%s: the scan that stores conf_active_max does not index conf[]' % f.name)
+            ix = unwrap(ixs[0])
+            k = 0
+            v = ix
+            if ix.get('k') == 'bin' and ix['op'] in ('-', '+') and cval(unwrap(ix['r'])) is not None:
+                k = cval(unwrap(ix['r'])) * (-1 if ix['op'] == '-' else 1)
+                v = unwrap(ix['l'])
+            if v.get('k') != 'var':
+                raise AnalysisBroken('%s: index %s of the scan not understood' % (f.name, estr(ix)))
+            lv = v['n']
+            inits = [cval(unwrap(e.rhs)) for e in f.events('STORE') if estr(e.lhs) == lv and e.d['op'] == '=' and e.blk not in body]
+            steps = {e.d['op'] for e in f.events('STORE') if estr(e.lhs) == lv and e.blk in body}
+            bounds = [a for (t_, lab) in f.blocks[h].succs if lab in (True, False) and t_ in body for a in atoms_of(f.blocks[h].cond, lab) if a.ls == lv and a.rc is not None]
+            top = None
+            if steps <= {'--', '-='} and inits and None not in inits:
+                top = max(inits) + k
+            elif steps <= {'++', '+='} and bounds:
+                a = bounds[0]
+                top = (a.rc - 1 if a.op == '<' else a.rc) + k
+            n += 1
+            ctx.check('R11', '%s:scan-reaches-the-last-slot' % f.name, top is not None and top >= TMAX - 1, st,
+                      'the scan for the highest enabled slot looks at slots up to %s (the last is %d)' % (top, TMAX - 1),
+                      'the scan that stores conf_active_max looks at slots up to %s only, the last slot is %d: a target opened when all the others are in use is enabled, selected, and never delivered to (the delivery loops stop at conf_active_max)'
+                      % (top, TMAX - 1))
+    if n == 0:
+        raise AnalysisBroken('R11: no scan stores conf_active_max')
